@@ -31,16 +31,18 @@ Section C14.
     intros c i policy path err filled text Hp. unfold help_result. rewrite Hp. cbn. auto.
   Qed.
 
-  (** a declared version option given as the first argument prints the version string *)
+  (** a declared version option given as the first argument prints the version string, wherever
+      Version was called among the declarations of the app *)
   Theorem C14_version :
-    forall (root : cmd) (name text : str) (i : inited) (a0 : str) (rest : list str),
-      do_init parse_float getenv (root_decls (mkApp root (Some (name, text)))) (c_spec root) = IOk i ->
+    forall (a : cliapp) (name text : str) (i : inited) (a0 : str) (rest : list str),
+      a_version a = Some (name, text) ->
+      do_init parse_float getenv (root_decls a) (c_spec (a_root a)) = IOk i ->
       mem_str a0 (mk_opt_strs name) = true ->
-      let r := run parse_float getenv (mkApp root (Some (name, text))) (a0 :: rest) in
+      let r := run parse_float getenv a (a0 :: rest) in
       r_trace r = [] /\ r_stderr r = [text] /\
-      r_outcome r = match effective_policy 1 root with 1 => RExit 0 | _ => RRet None end.
+      r_outcome r = match effective_policy 1 (a_root a) with 1 => RExit 0 | _ => RRet None end.
   Proof.
-    intros root name text i a0 rest Hi Hm. unfold run. cbn [a_root a_version]. rewrite Hi, Hm. cbn. auto.
+    intros a name text i a0 rest Hv Hi Hm. unfold run. rewrite Hi, Hv, Hm. cbn. auto.
   Qed.
 End C14.
 Print Assumptions C14_help.
